@@ -199,6 +199,8 @@ pub const BUILTINS: &[(&str, usize, bool)] = &[
     ("cadr", 1, false),
     ("cddr", 1, false),
     ("list-ref", 2, false),
+    ("floor-quotient", 2, false),
+    ("floor-remainder", 2, false),
 ];
 
 fn builtin_arity(name: &str) -> Option<(usize, bool)> {
@@ -681,21 +683,37 @@ impl Machine {
                     .iter()
                     .map(Self::num)
                     .collect::<Result<_, _>>()?;
-                let (mut acc, divisors) = if rest.is_empty() {
+                let (num0, divisors) = if rest.is_empty() {
                     (1, vec![first])
                 } else {
                     (first, rest)
                 };
-                for d in divisors {
-                    if d == 0 {
-                        return Err(RErr::DivZero);
-                    }
-                    if acc % d != 0 {
-                        return Err(RErr::Unsupported("inexact division".into()));
-                    }
-                    acc /= d;
+                // dividing by an exact zero is an error wherever it stands in the fold
+                if divisors.iter().any(|d| *d == 0) {
+                    return Err(RErr::DivZero);
                 }
-                small(acc)
+                let mut den: i64 = 1;
+                for d in divisors {
+                    den = den.saturating_mul(d);
+                }
+                if den == 0 || num0 % den != 0 {
+                    return Err(RErr::Unsupported("inexact division".into()));
+                }
+                small(num0 / den)
+            }
+            "floor-quotient" | "floor-remainder" => {
+                let a = Self::num(&args[0])?;
+                let b = Self::num(&args[1])?;
+                if b == 0 {
+                    return Err(RErr::DivZero);
+                }
+                let (q0, r0) = (a / b, a % b);
+                let q = if r0 != 0 && ((r0 < 0) != (b < 0)) { q0 - 1 } else { q0 };
+                if name == "floor-quotient" {
+                    small(q)
+                } else {
+                    small(a - q * b)
+                }
             }
             "=" | "<" | ">" | "<=" | ">=" => {
                 let nums: Vec<i64> = args.iter().map(Self::num).collect::<Result<_, _>>()?;
